@@ -1,27 +1,27 @@
-Common/Ops.vo Common/Ops.glob Common/Ops.v.beautified Common/Ops.required_vo: Common/Ops.v 
-Common/Ops.vio: Common/Ops.v 
-Common/Ops.vos Common/Ops.vok Common/Ops.required_vos: Common/Ops.v 
-Common/Vec.vo Common/Vec.glob Common/Vec.v.beautified Common/Vec.required_vo: Common/Vec.v Common/Ops.vo
-Common/Vec.vio: Common/Vec.v Common/Ops.vio
-Common/Vec.vos Common/Vec.vok Common/Vec.required_vos: Common/Vec.v Common/Ops.vos
-Common/VecLemmas.vo Common/VecLemmas.glob Common/VecLemmas.v.beautified Common/VecLemmas.required_vo: Common/VecLemmas.v Common/Ops.vo Common/Vec.vo
-Common/VecLemmas.vio: Common/VecLemmas.v Common/Ops.vio Common/Vec.vio
-Common/VecLemmas.vos Common/VecLemmas.vok Common/VecLemmas.required_vos: Common/VecLemmas.v Common/Ops.vos Common/Vec.vos
-Common/Out.vo Common/Out.glob Common/Out.v.beautified Common/Out.required_vo: Common/Out.v 
-Common/Out.vio: Common/Out.v 
-Common/Out.vos Common/Out.vok Common/Out.required_vos: Common/Out.v 
-C07/Model.vo C07/Model.glob C07/Model.v.beautified C07/Model.required_vo: C07/Model.v Common/Ops.vo Common/Vec.vo
-C07/Model.vio: C07/Model.v Common/Ops.vio Common/Vec.vio
-C07/Model.vos C07/Model.vok C07/Model.required_vos: C07/Model.v Common/Ops.vos Common/Vec.vos
 C07/Corr.vo C07/Corr.glob C07/Corr.v.beautified C07/Corr.required_vo: C07/Corr.v Common/Ops.vo Common/Vec.vo Common/Out.vo C07/Model.vo
 C07/Corr.vio: C07/Corr.v Common/Ops.vio Common/Vec.vio Common/Out.vio C07/Model.vio
 C07/Corr.vos C07/Corr.vok C07/Corr.required_vos: C07/Corr.v Common/Ops.vos Common/Vec.vos Common/Out.vos C07/Model.vos
+C07/Examples.vo C07/Examples.glob C07/Examples.v.beautified C07/Examples.required_vo: C07/Examples.v Common/Ops.vo Common/Vec.vo Common/VecLemmas.vo C07/Model.vo C07/Proofs.vo
+C07/Examples.vio: C07/Examples.v Common/Ops.vio Common/Vec.vio Common/VecLemmas.vio C07/Model.vio C07/Proofs.vio
+C07/Examples.vos C07/Examples.vok C07/Examples.required_vos: C07/Examples.v Common/Ops.vos Common/Vec.vos Common/VecLemmas.vos C07/Model.vos C07/Proofs.vos
+C07/Model.vo C07/Model.glob C07/Model.v.beautified C07/Model.required_vo: C07/Model.v Common/Ops.vo Common/Vec.vo
+C07/Model.vio: C07/Model.v Common/Ops.vio Common/Vec.vio
+C07/Model.vos C07/Model.vok C07/Model.required_vos: C07/Model.v Common/Ops.vos Common/Vec.vos
 C07/Proofs.vo C07/Proofs.glob C07/Proofs.v.beautified C07/Proofs.required_vo: C07/Proofs.v Common/Ops.vo Common/Vec.vo Common/VecLemmas.vo C07/Model.vo
 C07/Proofs.vio: C07/Proofs.v Common/Ops.vio Common/Vec.vio Common/VecLemmas.vio C07/Model.vio
 C07/Proofs.vos C07/Proofs.vok C07/Proofs.required_vos: C07/Proofs.v Common/Ops.vos Common/Vec.vos Common/VecLemmas.vos C07/Model.vos
 C07/Properties.vo C07/Properties.glob C07/Properties.v.beautified C07/Properties.required_vo: C07/Properties.v Common/Ops.vo Common/Vec.vo Common/VecLemmas.vo C07/Model.vo C07/Proofs.vo
 C07/Properties.vio: C07/Properties.v Common/Ops.vio Common/Vec.vio Common/VecLemmas.vio C07/Model.vio C07/Proofs.vio
 C07/Properties.vos C07/Properties.vok C07/Properties.required_vos: C07/Properties.v Common/Ops.vos Common/Vec.vos Common/VecLemmas.vos C07/Model.vos C07/Proofs.vos
-C07/Examples.vo C07/Examples.glob C07/Examples.v.beautified C07/Examples.required_vo: C07/Examples.v Common/Ops.vo Common/Vec.vo Common/VecLemmas.vo C07/Model.vo C07/Proofs.vo
-C07/Examples.vio: C07/Examples.v Common/Ops.vio Common/Vec.vio Common/VecLemmas.vio C07/Model.vio C07/Proofs.vio
-C07/Examples.vos C07/Examples.vok C07/Examples.required_vos: C07/Examples.v Common/Ops.vos Common/Vec.vos Common/VecLemmas.vos C07/Model.vos C07/Proofs.vos
+Common/Ops.vo Common/Ops.glob Common/Ops.v.beautified Common/Ops.required_vo: Common/Ops.v 
+Common/Ops.vio: Common/Ops.v 
+Common/Ops.vos Common/Ops.vok Common/Ops.required_vos: Common/Ops.v 
+Common/Out.vo Common/Out.glob Common/Out.v.beautified Common/Out.required_vo: Common/Out.v 
+Common/Out.vio: Common/Out.v 
+Common/Out.vos Common/Out.vok Common/Out.required_vos: Common/Out.v 
+Common/Vec.vo Common/Vec.glob Common/Vec.v.beautified Common/Vec.required_vo: Common/Vec.v Common/Ops.vo
+Common/Vec.vio: Common/Vec.v Common/Ops.vio
+Common/Vec.vos Common/Vec.vok Common/Vec.required_vos: Common/Vec.v Common/Ops.vos
+Common/VecLemmas.vo Common/VecLemmas.glob Common/VecLemmas.v.beautified Common/VecLemmas.required_vo: Common/VecLemmas.v Common/Ops.vo Common/Vec.vo
+Common/VecLemmas.vio: Common/VecLemmas.v Common/Ops.vio Common/Vec.vio
+Common/VecLemmas.vos Common/VecLemmas.vok Common/VecLemmas.required_vos: Common/VecLemmas.v Common/Ops.vos Common/Vec.vos
